@@ -14,7 +14,7 @@ Suggs == {<<[spec |-> A, kws |-> <<X, Z>>], [spec |-> B, kws |-> <<>>]>>}
          \cup (IF NSugg > 1 THEN {<<[spec |-> A, kws |-> <<Y>>], [spec |-> B, kws |-> <<Z>>]>>} ELSE {})
 Gaps(n) == [i \in 1..n |-> IF i = 1 THEN <<SP, SP>> ELSE <<TAB>>]
 PkgLines == {Line(ld, s, IF ks = <<>> THEN <<>> ELSE g1, ks, IF ks = <<>> THEN <<>> ELSE SubSeq(Gaps(2), 1, Len(ks) - 1), tr, cm, <<LF>>) :
-               ld \in {<<SP>>}, s \in Specs, g1 \in {<<SP>>, <<TAB, SP>>}, ks \in KwSeqs,
+               ld \in {<<SP>>}, s \in Specs, g1 \in {<<SP>>, <<160, TAB>>}, ks \in KwSeqs,
                tr \in {<<SP>>}, cm \in {<<>>, <<HASH, 99>>}}
             \cup {Line(<<>>, s, IF ks = <<>> THEN <<>> ELSE <<SP>>, ks, IF Len(ks) = 2 THEN <<<<SP>>>> ELSE <<>>, <<>>, <<>>, <<CR, LF>>) : s \in Specs, ks \in KwSeqs}
 BlankLines == {Line(<<>>, <<>>, <<>>, <<>>, <<>>, <<>>, <<>>, <<LF>>), Line(<<SP>>, <<>>, <<>>, <<>>, <<>>, <<>>, <<HASH, 99>>, <<LF>>)}
